@@ -63,6 +63,30 @@ def run_single(prop, clause_name, case):
 def replay_main(prop, path):
     with open(path, encoding="utf8") as f:
         rec = json.load(f)
+    if "hashseeds" in rec and os.environ.get("_VERIF_REPLAY_CHILD") != "1":
+        outs = []
+        for h in rec["hashseeds"]:
+            env = child_env(h)
+            env["_VERIF_REPLAY_CHILD"] = "1"
+            env["_VERIF_REPLAY_SIG"] = "1"
+            p = subprocess.run([PY, os.path.abspath(__file__), prop, "--replay", path], env=env, capture_output=True, text=True)
+            outs.append([l for l in p.stdout.splitlines() if l.startswith("SIG ")][:1] or [p.stdout[-300:]])
+        if outs[0] == outs[1]:
+            print("replay passes: %s (same signature under both hash seeds)" % path)
+            return 0
+        print("replay fails: signatures differ: %s vs %s" % (outs[0], outs[1]))
+        print("VIOLATION property=%s replay=%s" % (prop, path))
+        return 1
+    if os.environ.get("_VERIF_REPLAY_SIG") == "1":
+        sys.path.insert(0, REPO_SRC)
+        mod = importlib.import_module("props.%s" % prop.lower())
+        clause = next(c for c in mod.CLAUSES if c.name == rec["clause"])
+        try:
+            info = clause.run(rec["case"]) or {}
+            print("SIG " + json.dumps(info.get("sig"), default=str, sort_keys=True))
+        except Exception as e:
+            print("SIG exception %s" % e)
+        return 0
     want = str(rec.get("hashseed", "0"))
     if os.environ.get("PYTHONHASHSEED") != want or os.environ.get("_VERIF_REPLAY_CHILD") != "1":
         env = child_env(want)
@@ -190,6 +214,8 @@ def main():
                     e["cases"] += s["exhaustive"]["cases_this_worker"]
                     m["exhaustive"] = e
                 errors.extend(c["errors"])
+                for dg, rec in c.get("sigs", {}).items():
+                    m.setdefault("sigs", {}).setdefault(dg, []).append((fr["hashseed"], rec["sig"], rec["case"]))
                 for fl in c["failures"]:
                     key = (c["clause"], fl["bucket"])
                     if any((v[0], v[1]) == key for v in violations):
@@ -202,6 +228,37 @@ def main():
                                    "details": fl.get("details"), "hashseed": fr["hashseed"], "tier": tier, "seed": vseed}, f, ensure_ascii=False, indent=1, default=str)
                     violations.append((c["clause"], fl["bucket"], os.path.relpath(path, ROOT)))
                     lines.append("FAIL %s/%s [%s] hashseed=%s: %s" % (prop, c["clause"], fl["bucket"], fr["hashseed"], fl["msg"]))
+
+        # 3b. cross-process comparison of result signatures (same case, different PYTHONHASHSEED)
+        for cname, m in clauses.items():
+            sigs = m.get("sigs")
+            if not sigs:
+                continue
+            compared = unmatched = 0
+            reported = set()
+            for dg, lst in sigs.items():
+                if len(lst) < 2:
+                    unmatched += 1
+                    continue
+                compared += 1
+                h0, s0, case = lst[0]
+                for h, sg, _ in lst[1:]:
+                    if sg != s0:
+                        bucket = "hashseed_dependent:" + str(case.get("op", ""))
+                        if bucket in reported:
+                            continue
+                        reported.add(bucket)
+                        os.makedirs(newdir, exist_ok=True)
+                        path = os.path.join(newdir, "%s-%s-%s.json" % (slug(cname), slug(bucket), dg))
+                        with open(path, "w", encoding="utf8") as f:
+                            json.dump({"property": prop, "clause": cname, "bucket": bucket, "case": case, "hashseeds": [h0, h], "signatures": [s0, sg],
+                                       "msg": "result differs between PYTHONHASHSEED=%s and %s" % (h0, h), "tier": tier, "seed": vseed}, f, ensure_ascii=False, indent=1, default=str)
+                        violations.append((cname, bucket, os.path.relpath(path, ROOT)))
+                        lines.append("FAIL %s/%s [%s]: result signature differs between PYTHONHASHSEED=%s and %s: %s vs %s" % (prop, cname, bucket, h0, h, json.dumps(s0, default=str)[:120], json.dumps(sg, default=str)[:120]))
+            m["classes"]["cross_process_cases_compared"] = compared
+            m["classes"]["cross_process_cases_unmatched"] = unmatched
+            if compared == 0:
+                errors.append("clause %s: no case was evaluated by two workers (generation not reproducible across hash seeds?)" % cname)
 
         # 4. evidence
         evaluations = sum(m["evaluations"] for m in clauses.values())
